@@ -99,3 +99,13 @@ func verifLemmaRtpHeaderRoundTrip(h RtpHeader, buf []byte) (RtpHeader, error) {
 //@   ensures [C02.hboundary.fu]    b[0]>>1&0x3F == 49 && result ==> b[2]&0x80 != 0
 //@   ensures [C02.hboundary.other] b[0]>>1&0x3F <= 9 ==> !result
 //@ end
+
+
+// C07: RTP timestamp -> milliseconds is the exact floor of timestamp*1000/clockRate for every positive clock rate
+// (no cumulative drift at 44100/22050/11025 Hz), and total for every clock rate a peer's SDP can announce (C13).
+//@ func rtpTimestamp2Ms
+//@   props C07 C13
+//@   mode int
+//@   ensures [C07.ts.ms] clockRate > 0 ==> result * int64(clockRate) <= int64(timestamp) * 1000 && int64(timestamp) * 1000 < (result + 1) * int64(clockRate)
+//@   ensures [C07.ts.ms.nonneg] result >= 0
+//@ end
